@@ -249,6 +249,36 @@ theorem expand_nodup (N : Int) (S : List Op) (h : ValidSetting N S) :
   obtain ⟨L, hL, hp⟩ := expand_perm N S h
   exact ⟨L, hL, hp.nodup_iff.mpr h.2⟩
 
+/-! ### the LATT line: omitted number, numbers written as floats -/
+
+theorem truncInt_intCast (n : Int) : truncInt (n : Rat) = n := by
+  unfold truncInt
+  split
+  · exact Rat.floor_intCast n
+  · have : (-(n : Rat)) = ((-n : Int) : Rat) := by push_cast; rfl
+    rw [this, Rat.floor_intCast]; omega
+
+/-- **decodeLatt_spec** — the code reads the LATT line as the manual says: the number written (also when it is written
+    as `1.0`, `+1`, `01`; further parameters ignored), and N = 1 when no number is given -/
+theorem decodeLatt_spec (n : Option Int) (rest : List Rat) :
+    decodeLatt (match n with | none => [] | some k => (k : Rat) :: rest) = lattOf n := by
+  cases n with
+  | none => rfl
+  | some k => simp [decodeLatt, lattOf, truncInt_intCast]
+
+/-- **expand_perm_line** — `expand_perm` for the line as written: `LATT` without a number is LATT 1 -/
+theorem expand_perm_line (n : Option Int) (rest : List Rat) (S : List Op) (h : ValidSetting (lattOf n) S) :
+    ∃ L, expandLine (match n with | none => [] | some k => (k : Rat) :: rest) S = some L ∧
+      L.map cls ~ (fullGroup (lattOf n) S).map cls := by
+  unfold expandLine
+  rw [decodeLatt_spec]
+  exact expand_perm _ S h
+
+/-- bare `LATT` + `SYMM -X, 1/2+Y, 1/2-Z` is P2(1)/c: four operators -/
+example : ∃ L, expandLine [] [mkOp (-1) 0 0 0 1 0 0 0 (-1) 0 (1/2) (1/2)] = some L ∧ L.length = 4 := by
+  refine ⟨_, rfl, ?_⟩
+  decide +kernel
+
 /-- the setting describes a group: its spec list is closed under composition modulo ℤ³ (decidable) -/
 def ClosedSetting (N : Int) (S : List Op) : Prop := Closed (fullGroup N S)
 
